@@ -21,6 +21,19 @@ PeaksClause(c) ==
      ELSE IF ~Admissible(R, P, f, c.npeaks) THEN "keeps_the_npeaks_highest_peaks"
      ELSE IF \E k \in 1..Len(c.out) : c.values[k] # f[<<c.out[k][1], c.out[k][2]>>] THEN "peak_value_column"
      ELSE IF c.ids # [k \in 1..Len(c.out) |-> k] THEN "ids_are_1_to_n"
+     \* refinement: centroid_func = centre of mass over the footprint window around the peak, clipped to the image, without
+     \* the masked pixels, on the NaN-filled values (fixed point 1024; NaN iff the total is zero)
+     ELSE IF c.refine /\ Len(c.cen) # Len(c.out) THEN "one_centroid_per_peak"
+     ELSE IF c.refine /\ \E k \in 1..Len(c.out) :
+               LET pk == <<c.out[k][1], c.out[k][2]>>
+                   W == {q \in DOMAIN d : <<q[1] - pk[1], q[2] - pk[2]>> \in PixSetOf(c.fp)} \ PixSetOf(c.mask)
+                   tot == FoldSet(LAMBDA q, acc : acc + f[q], 0, W)
+                   sx == FoldSet(LAMBDA q, acc : acc + q[2] * f[q], 0, W)
+                   sy == FoldSet(LAMBDA q, acc : acc + q[1] * f[q], 0, W)
+                   AbsV(x) == IF x < 0 THEN -x ELSE x
+               IN IF tot = 0 THEN ~c.cen[k][3]
+                  ELSE c.cen[k][3] \/ AbsV(c.cen[k][1] * tot - 1024 * sx) > AbsV(tot) + 1 \/ AbsV(c.cen[k][2] * tot - 1024 * sy) > AbsV(tot) + 1
+          THEN "centroid_column_is_centroid_func_of_the_peak_window"
      ELSE "ok"
 \* star finders: rows as records of fixed-point ints; cfg gives the bounds
 InR(x, lo, hi) == lo <= x /\ x <= hi
